@@ -220,6 +220,21 @@ func TestGovcReplay(t *testing.T) {
 			want = append(want, 13)
 		}
 		eofOK := !(err == io.EOF && s != 5) && !(s == 5 && err != io.EOF && !limited)
+		if err == ErrDataTooLarge {
+			// limit transparency: the refusal is justified only if the message really has another octet
+			s2, more := s, false
+			for i := consumed; i < len(stream) && s2 != 5; i++ {
+				if spec_dotEmit(s2, int64(stream[i])) > 0 {
+					more = true
+					break
+				}
+				s2 = spec_dotNext(s2, int64(stream[i]))
+			}
+			if !more && s2 == 5 {
+				fmt.Printf("REPLAY the message ends here (only the end marker follows) but the reader reports ErrDataTooLarge\n")
+				eofOK = false
+			}
+		}
 		if !bytes.Equal(got, want) || !endOK || !eofOK {
 			fmt.Printf("REPLAY input stream=%%q reader state=%%d spec state=%%d limited=%%v n=%%d len(b)=%%d\n", stream, state, specState, limited, budget, lb)
 			fmt.Printf("REPLAY real code: output=%%q err=%%v final state=%%d consumed=%%d\n", got, err, r.state, consumed)
